@@ -281,11 +281,50 @@ GlueRefines(ev) ==
      /\ Len(ev.hellos) <= 1
      /\ \E r \in TP!TickStep(pre) : r.post = post /\ r.sent = (Len(ev.hellos) = 1)
 
+(* XTICK for a frame: the state the frame flow hands to its closing tick, exactly - table update (GlueTable     *)
+(* before the sweep), inactivity timer re-armed at the frame's second + 30, charge counter, RepeatBand (a Hello   *)
+(* heard counts, and marks enumeration begun from the tenth on; a Discover starts enumeration from the initial    *)
+(* count with the first Hello one load interval away and the first block 300 ms long, or marks a running one as   *)
+(* begun) - then TickExact at the time parseFrame returns.                                                        *)
+RInc(r) == IF r[2] < 65535 THEN << r[1], r[2] + 1 >> ELSE << r[1] + 1, 0 >>
+GlueExactOK(ev) ==
+  (KeyOf(ev.rs) >= 0 /\ full.ni[1] = 0 /\ ~full.clamped) =>
+    LET nows0 == ev.now0 \div 1000
+        k == KeyOf(ev.rs)
+        stamped == {ev.live[i][6] : i \in {j \in 1..Len(ev.live) : ev.live[j][1] = k /\ ev.live[j][2] = ev.gen}}
+        acking == stamped \cap {SessAcking, SessAckingChg} # {}
+        t1 == CASE ev.op = OpDiscover -> (IF acking THEN TComplete(TAdd(full.live, k, ev.gen, nows0, TableCap), k, ev.gen)
+                                         ELSE TAdd(full.live, k, ev.gen, nows0, TableCap))
+                [] ev.op = OpReset -> {}
+                [] OTHER -> full.live
+        t2 == IF full.ms # 0 /\ ev.ms = 0 THEN {} ELSE t1
+        r1 == IF ev.op = OpHello THEN RInc(full.r) ELSE full.r
+        band == IF ev.op = OpHello
+                THEN [full EXCEPT !.r = r1, !.begun = IF (r1[1] > 0 \/ r1[2] >= GAMMA) THEN 1 ELSE @, !.es = EnumNext(full.es, EnumHello)]
+                ELSE IF ev.op = OpDiscover
+                THEN (IF full.es = 0
+                      THEN [full EXCEPT !.ni = << 0, ALPHA >>, !.r = << 0, 0 >>, !.begun = 0, !.bto = ev.now0 + BlockMs,
+                                        !.hto = ev.now0 + LoadInterval(ALPHA), !.es = EnumNext(0, EnumNewSession)]
+                      ELSE [full EXCEPT !.begun = 1, !.es = EnumNext(full.es, EnumNewSession)])
+                ELSE full
+        pre == [band EXCEPT !.live = t2, !.inact = nows0 + 30,
+                            !.ctc = IF ev.op = OpCharge THEN (full.ctc + 1) % 256 ELSE full.ctc,
+                            !.cdl = IF ev.op = OpCharge THEN nows0 + 1 ELSE full.cdl]
+        w == TickExact(pre, ev.now)
+        g == FullOf(ev)
+        ok == /\ g.es = w.es /\ g.live = w.live /\ g.ctc = w.ctc /\ (Len(ev.hellos) = 1) = w.sent /\ Len(ev.hellos) <= 1
+              /\ g.hto = w.hto /\ g.bto = w.bto /\ g.lasttx = w.lasttx /\ g.ni = w.ni /\ g.r = w.r /\ g.begun = w.begun
+              /\ g.inact = w.inact
+    IN IF ok THEN TRUE
+       ELSE PrintT(<< "XTICK-DIFF", "glue op", ev.op, "now0", ev.now0, "now", ev.now, "pre", [pre EXCEPT !.live = Cardinality(@)],
+                      "model", [w EXCEPT !.live = Cardinality(@)], "real", [g EXCEPT !.live = Cardinality(@)], "hellos", Len(ev.hellos) >>) /\ FALSE
+
 (* a frame through the Darwin frame path (classifier, table update, automata, parseFrame, tick) *)
 TGlue ==
   LET ev == Log[l] IN
   /\ ev.e = "glue"
   /\ Chk("XGLUE") => GlueRefines(ev)
+  /\ Chk("XTICK") => GlueExactOK(ev)
   \* a Hello heard through the frame path counts once (unless the closing tick just ended the block)
   /\ Chk("C13") => ((ev.op = OpHello /\ full.r[1] = 0 /\ full.r[2] < 65535 /\ full.es = 1)
                       => ev.r \in {<< 0, full.r[2] + 1 >>, << 0, 0 >>})
